@@ -824,9 +824,9 @@ func containsOnlyLiterals(lit *ast.Literal) bool {
 			}
 			continue
 		}
-		// Check if it's a negated literal (e.g., -1)
+		// Check if it's a negated number (e.g., -1); a negated array, tuple, string or NULL is a function call
 		if unary, ok := e.(*ast.UnaryExpr); ok && unary.Op == "-" {
-			if _, isLit := unary.Operand.(*ast.Literal); isLit {
+			if lit, isLit := unary.Operand.(*ast.Literal); isLit && (lit.Type == ast.LiteralInteger || lit.Type == ast.LiteralFloat) {
 				continue
 			}
 		}
@@ -1282,6 +1282,10 @@ func explainInExprWithAlias(sb *strings.Builder, n *ast.InExpr, alias string, in
 						allTuplesArePrimitive = false
 						allPrimitiveLiterals = false
 					}
+				}
+				if lit.Type == ast.LiteralArray && !containsOnlyLiterals(lit) {
+					// an array holding a non-literal (identifier, call, negated non-number) is not a literal element
+					allPrimitiveLiterals = false
 				}
 			} else if isNumericExpr(item) {
 				allNull = false
